@@ -52,6 +52,9 @@ func (l *Leaf) Sha256() []byte { s := sha256.Sum256(l.DER); return s[:] }
 var (
 	Leaves []*Leaf
 	CADER  []byte
+	// OddCerts: self-signed certificates whose public keys are of kinds the formats
+	// do not use (ECDSA P-521 and P-224, RSA-2048, Ed25519); certificates only.
+	OddCerts []*Leaf
 )
 
 func CA() *x509.Certificate {
@@ -76,6 +79,10 @@ func mustPEM(name string) ([]byte, []byte) {
 
 func init() {
 	CADER, _ = mustPEM("ca.cert.pem")
+	for _, n := range []string{"odd-p521", "odd-p224", "odd-rsa", "odd-ed25519"} {
+		der, cpem := mustPEM(n + ".cert.pem")
+		OddCerts = append(OddCerts, &Leaf{Name: n, DER: der, PEM: cpem, CADER: CADER, Hosts: []string{"example.com", "fifth.example"}})
+	}
 	cas := map[string]string{"e-p256": "ca-rsa.cert.pem", "f-p384": "ca-ed25519.cert.pem"}
 	for _, n := range []string{"a-p256", "a2-p256", "b-p384", "c-p256", "d-p384", "e-p256", "f-p384"} {
 		der, cpem := mustPEM(n + ".cert.pem")
